@@ -208,6 +208,8 @@ func planE1(prop, tier string) *e1Plan {
 		p.add(scopeGen(), K12)
 		p.add(scopeName2("pairs"), K2)
 		p.add(scopeName2("rest"), KN)
+		p.add(scopeTyPair(), K2)
+		p.add(scopeCross(), K2)
 		if thorough {
 			pr, v = typeScope(2)
 			p.add(pr, K2)
@@ -227,6 +229,7 @@ func planE1(prop, tier string) *e1Plan {
 		p.add(v, K6)
 		p.add(scopeEmbed(), K)
 		p.add(scopeGen(), K12)
+		p.add(scopeTyPair(), []Cfg{K2[0], K2[1], {Skip: true, Pkg: 2}})
 		if thorough {
 			pr, v = typeScope(2)
 			p.add(pr, K2)
@@ -269,6 +272,7 @@ func planE1(prop, tier string) *e1Plan {
 		p.add(scopeGen(), K12)
 		p.add(scopeEmbed(), K)
 		p.add(scopeSrcSync(), K)
+		p.add(scopeTyPair(), K2)
 		p.rule = "S-cfg × (4 destinations × skip-ensure × formatters …), S-type1/S-gen/S-embed × configuration subsets; oracle: self-import absent in same-package modes, source import present iff needed (independent go/types walk) in other modes, zero type errors in the destination package"
 	case "C11":
 		p.oracle = oracleC11
@@ -290,6 +294,7 @@ func planE1(prop, tier string) *e1Plan {
 		p.add(scopeName2("pairs"), KN)
 		p.add(scopeName2("rest"), KN)
 		p.add(scopeGen(), K2)
+		p.add(scopeCross(), KN)
 		if thorough {
 			p.add(scopeName3(), cfgNames())
 		}
